@@ -379,7 +379,7 @@ func runC02(w *World) {
 		LocalHold: Pick(w, "lhold", 90, 0, 3, 65535), RemoteHold: 90,
 		Configure: func(p *PeerH) {
 			if refuse {
-				refusal = &corebgp.Notification{Code: Pick(w, "rcode", byte(2), 6, 2), Subcode: byte(w.Draw(12, "rsub")), Data: w.RandBytes(w.Draw(8, "rdl"), "rd")}
+				refusal = &corebgp.Notification{Code: Pick(w, "rcode", byte(2), 6, 2), Subcode: byte(w.Draw(12, "rsub")), Data: w.RandBytes(w.NotifDataLen(8, "rdl"), "rd")}
 				p.Plug.OpenFn = func(netip.Addr, []corebgp.Capability) *corebgp.Notification { return refusal }
 			}
 		}})
